@@ -74,6 +74,14 @@ def rt_inferred_body(ta, tb, k, g: Grammar):
     ASSUME(k >= 0)
     rewrite = ta.take(2) == 1
     vals = [build_value(ta, g), build_value(tb, g)]
+    # encoding must not depend on what was encoded (and freed) before: round-trip each value's own
+    # type in sequence, releasing it in between, then the merged type
+    for v in vals:
+        own = get_type(v, k)
+        r = _roundtrip(own)
+        if r is not None:
+            return check(False, lambda: f"{r} (value {show(v)} encoded after {[show(x) for x in vals[:vals.index(v)]]}, k={int(k)})")
+        del own
     typ = shrink_types([get_type(v, k) for v in vals], k)
     if rewrite:
         typ = DEFAULT_REWRITER.rewrite(typ)
@@ -84,7 +92,7 @@ def rt_inferred_body(ta, tb, k, g: Grammar):
 TRACE_FUNCS = (
     F.mod_func, F.Klass.method, F.Klass.__dict__["cmethod"].__func__, F.Klass.__dict__["smethod"].__func__, F.Klass.__dict__["prop"].fget,
     F.wrapped_func.__wrapped__, F.Base.inherited, F.Klass.Nested.nested_method, F.Klass.Nested.Deeper.deep_method, F.gen_func, F.coro_func,
-    F.kw_only,
+    F.kw_only, F.double_wrapped.__wrapped__.__wrapped__, F.Deco.__dict__["build"].__func__.__wrapped__.__wrapped__,
 )
 TG_SLOT = TGrammar(atoms=("int", "NoneType", "B", "Inner"), generics=("List", "TD", "TupleEmpty", "Union"), depth=1, max_union=2,
                    elem_atoms=("int", "NoneType"), td_keys=("a",))
